@@ -3267,7 +3267,11 @@ where
                     self.store.erase(ResponsePacket::V3_1_1Pubrec, packet_id);
                     // From now on the exchange waits for PUBCOMP (its PUBREL may be sent later).
                     self.pid_pubcomp.insert(packet_id);
-                    if self.auto_pub_response && self.status == ConnectionStatus::Connected {
+                    // (while not connected - a PUBREC pipelined behind the peer's CONNECT - the
+                    // PUBREL of a persistent session is queued in the store)
+                    if self.auto_pub_response
+                        && (self.status == ConnectionStatus::Connected || self.need_store)
+                    {
                         let pubrel = v3_1_1::GenericPubrel::<PacketIdType>::builder()
                             .packet_id(packet_id)
                             .build()
@@ -3305,7 +3309,11 @@ where
                     if reason_code.is_none() || !reason_code.unwrap().is_failure() {
                         // From now on the exchange waits for PUBCOMP (its PUBREL may be sent later).
                         self.pid_pubcomp.insert(packet_id);
-                        if self.auto_pub_response && self.status == ConnectionStatus::Connected {
+                        // (while not connected - a PUBREC pipelined behind the peer's CONNECT -
+                        // the PUBREL of a persistent session is queued in the store)
+                        if self.auto_pub_response
+                            && (self.status == ConnectionStatus::Connected || self.need_store)
+                        {
                             let pubrel = v5_0::GenericPubrel::<PacketIdType>::builder()
                                 .packet_id(packet_id)
                                 .build()
